@@ -10,6 +10,7 @@ import z3
 
 from cxxvc.kernel import Kernel, LoopSpec, Lemma
 from cxxvc.interp import Obj, Ptr, Loc, ArrLoc, Gap, MAX_DT, ExcVal, VOID, ThrowEx, Opt
+from cxxvc.native import NativeCheck
 from cxxvc import extract, models
 from contracts.gs import GS, GraphKernel, cache_le, rely_R, qj, INVALID_CURSOR
 
@@ -602,3 +603,33 @@ models.install_guards(NestedNodeKernel)
 
 KERNELS = [NestedScheduleNodeImpl, PropagateNestedParentSchedule, SingleNestedPropagate, SingleNestedEvaluate,
            SingleNestedStart, SingleNestedStop, TryExceptEvaluate]
+
+
+
+# ------------------------------------------------------------------ bounded stand-in: inlined == nested == nested twice
+#
+# The kernels above decide the delegation of wake-ups and the output alias function by function; the relational statement
+# itself ("the same output stream at the same times") is exercised by running a catalogue of sub-graph bodies in the three
+# modes with the inlined run as the oracle.
+
+
+class NestedEquivalenceEnumeration(NativeCheck):
+    kid = "native:c09_nested"
+    property_ids = ("C09",)
+    source = "native/bounded/c09_nested.cpp"
+    title = "a sub-graph gives the same (time, value) stream inlined, nested and nested twice"
+    bound_text = ("bounded: 7 sub-graph bodies (pass-through of the whole argument; pass-through of one element of a structural "
+                  "argument; a node on that element; a boundary input combined with an internal self-scheduling source; the same "
+                  "with a consumer that has no validity requirement; a node that wakes itself a delay after each input tick; a body "
+                  "with no boundary input) x 864 timing combinations (boundary inputs a, b: first tick 0-2, step 1/3, 0-3 ticks; "
+                  "internal source: first tick 0/1/3, 0 or 2 ticks; delay 1/2) x {inlined, nested, nested twice}; 30 engine cycles "
+                  "each; the inlined run is the oracle")
+    functions = ("nested_graph_node.cpp: single_nested_graph_start/evaluate/propagate_schedule/bind_inputs/bind_output",
+                 "graph.cpp: nested schedule delegation (nested_schedule_node_impl, propagate_nested_parent_schedule)",
+                 "graph_wiring.cpp: Wiring::finish_subgraph (boundary bindings, output alias paths)", "subgraph_wiring.h: nested_<>")
+
+    def runs(self, tier):
+        return [(["%d" % i, "4"], {}) for i in range(4)]
+
+
+NATIVE = globals().get("NATIVE", []) + [NestedEquivalenceEnumeration]
